@@ -1,4 +1,5 @@
 import Imdlv.Model.WriteAll
+import Imdlv.Model.Streams
 /-!
 # C18 / C19 (short writes) — what is printed arrives whole, whatever the descriptor does
 
@@ -107,6 +108,32 @@ theorem delivered_is_prefix (active : Bool) (data : Bytes) (script : List Int) :
 theorem schedule_independent (data : Bytes) (s₁ s₂ : List Int) (h₁ : ∀ k ∈ s₁, 0 ≤ k) (h₂ : ∀ k ∈ s₂, 0 ≤ k) :
     writeAll true data s₁ = writeAll true data s₂ := by
   rw [delivers data s₁ h₁, delivers data s₂ h₂]
+
+/-- **The two models composed**: what reaches a descriptor, under every pattern of short writes, is
+exactly what the stream model says the stream emits - the painted texts of the writes addressed to
+it when it is active, nothing when it is not (`--quiet` on standard error). -/
+theorem descriptor_receives_emitted (c : Imdlv.Streams.Config) (t : Imdlv.Streams.Target)
+    (ws : List Imdlv.Streams.Write) (script : List Int) (h : ∀ k ∈ script, 0 ≤ k) :
+    let s := match t with | .out => Imdlv.Streams.outStream c | .err => Imdlv.Streams.errStream c
+    let data := ((ws.filter (·.target == t)).map (Imdlv.Streams.paint s.style)).flatten
+    writeAll s.active data script = (true, Imdlv.Streams.emitted c t ws) := by
+  cases t with
+  | out =>
+    intro s data
+    simp only [Imdlv.Streams.emitted]
+    cases ha : (Imdlv.Streams.outStream c).active with
+    | true =>
+      simp only [if_true]; exact delivers data script h
+    | false =>
+      simp [writeAll]
+  | err =>
+    intro s data
+    simp only [Imdlv.Streams.emitted]
+    cases ha : (Imdlv.Streams.errStream c).active with
+    | true =>
+      simp only [if_true]; exact delivers data script h
+    | false =>
+      simp [writeAll]
 
 /-! non-vacuity: five bytes in turns of 2, 1 and the rest; a failure after three bytes -/
 example : writeAll true [1, 2, 3, 4, 5] [2, 1] = (true, [1, 2, 3, 4, 5]) := by decide
